@@ -28,10 +28,10 @@ from simkit.rng import seed_globals  # noqa: E402
 from simkit.world import InvalidScenario, Monitor, Violation, result, run_sim, seeded_uuid  # noqa: E402
 
 PROPERTY = "C09"
-RUNS = {"quick": 12_000, "thorough": 500_000}
-WALL = {"quick": 45, "thorough": 1500}
-BATCH = {"quick": 150, "thorough": 1000}
-SELFTEST_RUNS = 40
+RUNS = {"quick": 20_000, "thorough": 500_000}
+WALL = {"quick": 30, "thorough": 1500}
+BATCH = {"quick": 250, "thorough": 1000}
+SELFTEST_RUNS = 24
 RULE = (
     "each case is one primitive + 2-12 generated worker processes (<=6 acquire cycles each; for Bulkhead/ThreadPool "
     "<=30 request events) with start offsets drawn from a handful of instants (so identical instants are common), "
@@ -80,6 +80,16 @@ EXPECTED_PROBES = [
     "probe.arrival_during_setup", "probe.arrival_blocked_during_setup", "probe.handoff", "probe.timeout", "probe.idle_expired",
     "probe.reused_idle", "probe.rejected", "probe.preempted", "probe.preempt_freed_excess", "probe.preempt_insufficient",
     "probe.release_after_preempt", "probe.limit_below_active", "probe.deadlock_left_waiters",
+    # reachable since the busy-wait / over-creation fixes: contention across simulated time, per primitive
+    "probe.mutex.waited_across_time", "probe.semaphore.waited_across_time", "probe.rwlock.waited_across_time",
+    "probe.barrier.waited_across_time", "probe.condition.waited_across_time", "probe.pool.waited_across_time",
+    "probe.mutex.chain_handoff", "probe.semaphore.chain_handoff", "probe.rwlock.chain_handoff",
+    "probe.mutex.queue_depth_ge_4", "probe.semaphore.queue_depth_ge_4", "probe.rwlock.queue_depth_ge_4",
+    "probe.barrier.queue_depth_ge_4", "probe.condition.queue_depth_ge_4", "probe.pool.queue_depth_ge_4",
+    "probe.reader_wake_capped_by_max_readers", "probe.writer_granted_after_waiting_across_time",
+    "probe.barrier_generations_ge_3", "probe.barrier_more_workers_than_parties",
+    "probe.condition_wait_rounds_ge_2", "probe.notify_without_waiters", "probe.notify_woke_several",
+    "probe.woken_waiters_contend_for_mutex", "probe.warmup_handed_connection_to_waiter",
 ]
 SHRINK_SKIP = ("family", "klass", "kind")
 SHRINK_BUDGET_S = {"quick": 20.0, "thorough": 60.0}
@@ -168,23 +178,35 @@ def gen_resource(rng):
 
 
 def _sync_klass(rng, extra=()):
-    return rng.choice(["contended", "contended", "zero-hold-burst", "zero-hold-burst", "uncontended"] + list(extra))
+    # contended / convoy: blocked across time (reachable since the busy-wait fix); zero-hold-burst: all contention in
+    # one instant; uncontended: nobody blocks (try/immediate paths)
+    return rng.choice(["contended"] * 5 + ["convoy"] * 3 + ["zero-hold-burst"] * 2 + ["uncontended"] + list(extra))
 
 
-def _sync_workers(rng, klass, cycle, n=None, cycles_hi=None):
-    """Build workers for a sync primitive. cycle(rng, zero) -> list of ops for one acquire/release cycle."""
+def _sync_workers(rng, klass, cycle, n=None, cycles_hi=None, first_cycle=None):
+    """Build workers for a sync primitive. cycle(rng, zero) -> list of ops for one acquire/release cycle.
+
+    convoy: worker 0 takes the primitive at t=0 (first_cycle) and keeps it for a long time while the others arrive
+    one after another at distinct (and some identical) instants and pile up in the wait queue."""
     if n is None:
         n = _n_workers(rng, hi=8 if klass == "zero-hold-burst" else 12)
     if cycles_hi is None:
-        cycles_hi = 3 if (klass == "zero-hold-burst" or n > 6) else 6
+        cycles_hi = 3 if klass == "zero-hold-burst" else 6 if n <= 8 else 4
     zero = klass == "zero-hold-burst"
     if zero:
         times = [0] * n if rng.random() < 0.7 else [rng.choice([0, 40 * MS]) for _ in range(n)]
+    elif klass == "convoy":
+        step = rng.choice([1, 1000, 1 * MS])
+        times = [0] + [step * rng.randint(1, n) for _ in range(n - 1)]
     else:
         times = _times(rng, n, rng.choice(["cluster", "cluster", "burst", "two", "spread"]))
     workers = []
     for i in range(n):
         ops = []
+        if klass == "convoy" and i == 0:
+            head = (first_cycle or cycle)(rng, False)
+            ops += [o for o in head if o["op"] not in ("hold", "rel")]
+            ops += [{"op": "hold", "ns": rng.choice([20 * MS, 50 * MS])}, {"op": "rel"}]
         for _ in range(rng.randint(1, cycles_hi)):
             ops += cycle(rng, zero)
             if rng.random() < 0.4:
@@ -206,7 +228,8 @@ def gen_mutex(rng):
             tail.append({"op": "badrel"})
         return head + _hold(rng, zero) + tail
 
-    return {"family": "mutex", "klass": f"mutex/{klass}", "cfg": {}, "workers": _sync_workers(rng, klass, cycle)}
+    first = lambda rng, zero: [{"op": "acq"}]  # noqa: E731
+    return {"family": "mutex", "klass": f"mutex/{klass}", "cfg": {}, "workers": _sync_workers(rng, klass, cycle, first_cycle=first)}
 
 
 def gen_semaphore(rng):
@@ -229,7 +252,8 @@ def gen_semaphore(rng):
             tail.append({"op": "overrel"})
         return head + _hold(rng, zero) + tail
 
-    workers = _sync_workers(rng, "contended" if klass == "uncontended" else klass, cycle, n=n)
+    first = lambda rng, zero: [{"op": "acq", "a": cap}]  # noqa: E731  (convoy head drains the semaphore)
+    workers = _sync_workers(rng, "contended" if klass == "uncontended" else klass, cycle, n=n, first_cycle=first)
     return {"family": "semaphore", "klass": f"semaphore/{klass}", "cfg": {"capacity": cap}, "workers": workers}
 
 
@@ -246,53 +270,58 @@ def gen_rwlock(rng):
             head = [{"op": rng.choice(["rd", "rd", "rd", "wr", "wr", "tryrd", "trywr"])}]
         return head + _hold(rng, zero) + [{"op": "rel"}]
 
-    workers = _sync_workers(rng, "contended" if klass == "readers-only" else klass, cycle)
+    first = lambda rng, zero: [{"op": rng.choice(["wr", "wr", "rd"])}]  # noqa: E731
+    workers = _sync_workers(rng, "contended" if klass == "readers-only" else klass, cycle, first_cycle=first)
     return {"family": "rwlock", "klass": f"rwlock/{klass}", "cfg": {"max_readers": mr}, "workers": workers}
 
 
 def gen_barrier(rng):
-    klass = rng.choice(["staggered", "same-instant", "same-instant"])
-    if klass == "same-instant":
+    klass = rng.choice(["staggered", "staggered", "staggered", "phased", "phased", "same-instant"])
+    if klass in ("same-instant", "phased"):
+        # every worker passes the same number of barriers; phased: arrival instants differ per worker and phase
         parties = rng.choice([1, 2, 2, 3, 4, 6])
         groups = rng.choice([1, 1, 2])
         n = parties * groups
-        gens = rng.randint(1, 4)
-        gaps = [rng.choice([0, 0, 1 * MS, 3 * MS]) for _ in range(gens)]
-        ops = []
-        for g in range(gens):
-            ops.append({"op": "wait"})
-            if gaps[g] or rng.random() < 0.5:
-                ops.append({"op": "hold", "ns": gaps[g]})
+        gens = rng.randint(1, 5)
         t0 = rng.choice([0, 2 * MS])
-        workers = [{"t": t0, "ops": [dict(o) for o in ops]} for _ in range(n)]
+        workers = []
+        gaps = [rng.choice([0, 0, 1 * MS, 3 * MS]) for _ in range(gens)]
+        for _ in range(n):
+            ops = []
+            for g in range(gens):
+                ops.append({"op": "wait"})
+                gap = gaps[g] if klass == "same-instant" else rng.choice(H_MIX)
+                if gap or rng.random() < 0.5:
+                    ops.append({"op": "hold", "ns": gap})
+            workers.append({"t": t0 if klass == "same-instant" else rng.choice(T_CLUSTER), "ops": ops})
     else:
-        n = _n_workers(rng, hi=10)
+        n = _n_workers(rng, hi=12)
         parties = rng.choice([2, 2, 3, n, max(2, n // 2)])
         times = _times(rng, n, rng.choice(["cluster", "two", "spread"]))
         workers = []
         for i in range(n):
             ops = []
-            for _ in range(rng.randint(1, 3)):
+            for _ in range(rng.randint(1, 5)):
                 ops += [{"op": "wait"}] + _hold(rng)
             workers.append({"t": times[i], "ops": ops})
     return {"family": "barrier", "klass": f"barrier/{klass}", "cfg": {"parties": parties}, "workers": workers}
 
 
 def gen_condition(rng):
-    klass = rng.choice(["timed", "same-instant", "same-instant"])
+    klass = rng.choice(["timed", "timed", "timed", "same-instant"])
     zero = klass == "same-instant"
-    nc = rng.randint(1, 4)
-    np_ = rng.randint(1, 3)
+    nc = rng.randint(1, 4 if zero else 7)
+    np_ = rng.randint(1, 3 if zero else 4)
     workers = []
     for _ in range(nc):
         ops = []
-        for _ in range(1 if zero else rng.randint(1, 2)):
+        for _ in range(1 if zero else rng.randint(1, 4)):
             ops += [{"op": "consume", "max_waits": rng.randint(1, 3)}] + _hold(rng, zero)
         workers.append({"t": 0 if zero else rng.choice(T_CLUSTER), "ops": ops})
     for _ in range(np_):
         ops = []
-        for _ in range(rng.randint(1, 3)):
-            o = {"op": "produce", "n": rng.randint(1, 2)}
+        for _ in range(rng.randint(1, 3 if zero else 5)):
+            o = {"op": "produce", "n": rng.randint(0 if not zero else 1, 2)}
             if rng.random() < 0.4:
                 o["all"] = True
             else:
@@ -311,7 +340,7 @@ def gen_condition(rng):
 
 
 def gen_pool(rng):
-    klass = rng.choice(["burst-during-setup", "burst-during-setup", "warm-then-burst", "warm-then-burst", "timeouts", "sequential-idle"])
+    klass = rng.choice(["burst-during-setup"] * 5 + ["warm-then-burst", "timeouts", "sequential-idle"])
     maxc = rng.choice([1, 2, 2, 3, 4])
     setup = rng.choice([0, 1 * MS, 10 * MS, 100 * MS])
     cfg = {"max": maxc, "min": 0, "timeout_ns": rng.choice([50 * MS, 200 * MS, 1000 * MS]),
@@ -322,15 +351,17 @@ def gen_pool(rng):
         return [{"op": "acq"}, {"op": "hold", "ns": rng.choice(hold_choices)}, {"op": "rel"}]
 
     if klass == "burst-during-setup":
-        n = rng.randint(2, 10)
-        cfg["min"] = rng.choice([0, 0, 1]) if maxc > 1 else 0
+        n = rng.randint(2, 12)
+        cfg["min"] = rng.choice([0, 0, 1, maxc])
         cfg["warmup"] = cfg["min"] > 0 and rng.random() < 0.7
         cfg["idle_ns"] = rng.choice([50 * MS, 300 * MS, 10_000 * MS])
+        if rng.random() < 0.35:
+            cfg["timeout_ns"] = rng.choice([20 * MS, 50 * MS, 100 * MS])  # waiters time out while set-ups / long holds go on
         for i in range(n):
-            t = rng.choice([0, 0, 0, setup // 2, setup, setup + 1, 2 * setup + 1 * MS])
+            t = rng.choice([0, 0, 0, setup // 2, setup, setup + 1, 2 * setup + 1 * MS, 150 * MS])
             ops = []
-            for _ in range(rng.randint(1, 3)):
-                ops += cyc([0, 1 * MS, 5 * MS, 20 * MS, 120 * MS]) + _hold(rng)
+            for _ in range(rng.randint(1, 4)):
+                ops += cyc([0, 1 * MS, 5 * MS, 20 * MS, 120 * MS, 400 * MS]) + _hold(rng)
             workers.append({"t": t, "ops": ops})
     elif klass in ("warm-then-burst", "timeouts"):
         # avoidance class for the over-creation defect: the pool is filled one connection at a time,
@@ -420,14 +451,14 @@ def gen_concurrency(rng):
 
 
 def gen_preemptible(rng):
-    klass = rng.choice(["mixed", "mixed", "unit-amounts", "no-preempt"])
-    cap = rng.choice([1, 2, 3, 3, 4])
+    klass = rng.choice(["mixed"] * 5 + ["unit-amounts", "no-preempt"])
+    cap = rng.choice([1, 2, 3, 3, 4, 6])
     n = _n_workers(rng, hi=10)
     times = _times(rng, n, rng.choice(["cluster", "cluster", "burst", "two", "spread"]))
     workers = []
     for i in range(n):
         ops = []
-        for _ in range(rng.randint(1, 4 if n <= 6 else 2)):
+        for _ in range(rng.randint(1, 5 if n <= 6 else 3)):
             a = 1 if klass == "unit-amounts" else rng.randint(1, cap)
             p = float(rng.choice([0, 1, 1, 2, 3, 5]))
             pre = False if klass == "no-preempt" else rng.random() < 0.7
@@ -439,8 +470,8 @@ def gen_preemptible(rng):
 
 
 GENS = [
-    (gen_resource, 16), (gen_mutex, 10), (gen_semaphore, 11), (gen_rwlock, 13), (gen_barrier, 6), (gen_condition, 7),
-    (gen_pool, 12), (gen_bulkhead, 8), (gen_threadpool, 5), (gen_concurrency, 4), (gen_preemptible, 8),
+    (gen_resource, 13), (gen_mutex, 11), (gen_semaphore, 12), (gen_rwlock, 15), (gen_barrier, 8), (gen_condition, 10),
+    (gen_pool, 12), (gen_bulkhead, 6), (gen_threadpool, 3), (gen_concurrency, 3), (gen_preemptible, 7),
 ]
 _TOTAL_W = sum(w for _, w in GENS)
 
@@ -528,6 +559,8 @@ def _run(sc):
     contention = blocked or any(c.get("probe." + p) for p in ("try_refused", "rejected", "timeout", "tripped", "preempted", "consumed"))
     counters = {k: v for k, v in c.items()}
     counters[f"family.{fam_name}"] = 1
+    if fam.max_blocked >= 4:
+        counters[f"probe.{fam_name}.queue_depth_ge_4"] = 1
     if sig is None:
         counters["clean_runs"] = 1
     counters["max_same_instant_deliveries"] = 0  # placeholder so the key exists
